@@ -472,7 +472,8 @@ impl Engine {
             (Expect::Err, vec!["C06"])
         } else if self.oracle_blocks() {
             (Expect::Err, vec!["C15"])
-        } else if now.checked_add(self.m.cfg.batch_period).is_none() || now.checked_add(self.m.cfg.unbonding).is_none() {
+        } else if !deadline_ok(now, self.m.cfg.batch_period) || !deadline_ok(now, self.m.cfg.unbonding) {
+            // no property says whether an unrepresentable deadline is refused at configuration or at use
             (Expect::Err, vec!["C16"])
         } else {
             (Expect::Ok, vec!["C06"])
@@ -1381,6 +1382,24 @@ impl Engine {
                 n.reward_collector_address = next.collector.clone();
                 nc = Some(n);
                 self.identity_changed = true;
+            }
+            CfgChange::PeriodHuge(k, which) => {
+                let now = self.ch.now_s();
+                let v = match k % 4 {
+                    0 => u64::MAX,
+                    1 => u64::MAX - now,
+                    2 => u64::MAX - now - 1,
+                    _ => u64::MAX / 2,
+                };
+                if *which {
+                    next.unbonding = v;
+                    let mut n = self.native_cfg();
+                    n.unbonding_period = v;
+                    nc = Some(n);
+                } else {
+                    next.batch_period = v;
+                    bp = Some(v);
+                }
             }
             CfgChange::Channel(other) => {
                 next.channel = if *other { self.a.other_channel.clone() } else { self.a.channel.clone() };
